@@ -6,7 +6,9 @@ use crate::oracle::*;
 use crate::report::*;
 use crate::src_adf::*;
 use crate::store::*;
+use adf_bdd::adf::heuristics::Heuristic;
 use adf_bdd::adf::Adf;
+use adf_bdd::datatypes::Term;
 use adf_bdd::adfbiodivine::Adf as BdAdf;
 use adf_bdd::parser::AdfParser;
 use serde_json::{json, Value};
@@ -121,6 +123,46 @@ pub fn seq_case_n(text: &str, n: usize, bridged: bool, seq: &[usize], fresh: &mu
     out
 }
 
+/// The seed is part of the object's state: `seed(S)` followed by the seeded Rand search gives the same models in the
+/// same order on a fresh object, on a re-imported object seeded after the repair step, and on a re-imported object
+/// seeded BEFORE the repair step (import, seed, fix_import, search).
+pub fn rand_order_case(text: &str) -> Vec<(String, String)> {
+    let parser = AdfParser::default();
+    if !crate::fam::parse_into(&parser, text) {
+        return vec![("parse".into(), "well-formed input rejected".into())];
+    }
+    let mut out = vec![];
+    adf_bdd::verif::set_budget(Some(STEP_BUDGET));
+    let r = guard(|| {
+        let mut fresh = Adf::from_parser(&parser);
+        let json = serde_json::to_string(&fresh).expect("export must work");
+        fresh.seed([7; 32]);
+        let a: Vec<Vec<Term>> = fresh.stable_nogood(Heuristic::Rand).collect();
+        let mut late: Adf = serde_json::from_str(&json).expect("import of an export must work");
+        late.fix_import();
+        late.seed([7; 32]);
+        let b: Vec<Vec<Term>> = late.stable_nogood(Heuristic::Rand).collect();
+        let mut early: Adf = serde_json::from_str(&json).expect("import of an export must work");
+        early.seed([7; 32]);
+        early.fix_import();
+        let c: Vec<Vec<Term>> = early.stable_nogood(Heuristic::Rand).collect();
+        (a, b, c)
+    });
+    adf_bdd::verif::set_budget(None);
+    match r {
+        Err(m) => out.push(("rand-order:panic".into(), m)),
+        Ok((a, b, c)) => {
+            if a != b {
+                out.push(("rand-order:reimported".into(), format!("seeded Rand search on a re-imported object (seeded after the repair step) yields {:?}, on a fresh object {:?}", b, a)));
+            }
+            if a != c {
+                out.push(("rand-order:seed-lost".into(), format!("import, seed, fix_import, seeded Rand search yields {:?}; a fresh object with the same seed {:?}", c, a)));
+            }
+        }
+    }
+    out
+}
+
 fn decode_seq(k: u64, len: usize) -> Vec<usize> {
     decode_seq_a(k, len, CALLS)
 }
@@ -144,6 +186,12 @@ pub fn run_c11(run: &Run) {
     let plan: Vec<(usize, usize, bool)> = if run.quick() { vec![(2, 6, false), (3, 5, false), (2, 4, true)] } else { vec![(2, 7, false), (3, 6, false), (2, 5, true)] };
     for (vars, depth, memo_key) in plan {
         let cfg = Explore { vars, depth, with_memo_key: memo_key, reimports: true, flags, init: Init::Empty, name: format!("store V={}{} with memo audit", vars, if memo_key { " (keyed by node table + memo tables)" } else { "" }) };
+        let st = explore(run, &cfg);
+        run.add_counts(st.states, st.transitions, st.transitions, st.states.saturating_sub(1));
+    }
+    if cfg!(feature = "frontend") {
+        let (vars, depth) = if run.quick() { (2, 5) } else { (3, 5) };
+        let cfg = Explore { vars, depth, with_memo_key: false, reimports: true, flags, init: Init::GoneListener, name: format!("store V={} streaming to a listener that has gone away, with memo audit", vars) };
         let st = explore(run, &cfg);
         run.add_counts(st.states, st.transitions, st.transitions, st.states.saturating_sub(1));
     }
@@ -239,6 +287,39 @@ pub fn run_c11(run: &Run) {
             }
         }
     }
+    // the seed survives the repair step
+    {
+        let mut texts: Vec<String> = vec![];
+        for k in [3usize, 5, 6] {
+            let n = 2 * k;
+            let labels: Vec<String> = (0..n).map(|i| format!("p{}", i)).collect();
+            let conds: Vec<crate::oracle::Fm> = (0..n).map(|i| crate::oracle::Fm::not(crate::oracle::Fm::Atom(i ^ 1))).collect();
+            texts.push(crate::large::LargeAdf { labels: labels.clone(), written: labels, conds, shape: "pairs" }.text(None, ("", "", "")));
+        }
+        let a2 = Source::FamCompact(fam_a(2));
+        for k in 0..a2.size() {
+            texts.push(a2.get(k).text);
+        }
+        let ring = Source::Ring(6, run.seed % 4096, 4096);
+        for k in 0..ring.size() {
+            texts.push(ring.get(k).text);
+        }
+        let res = run.par_family(
+            &format!("seeded Rand search on fresh and re-imported objects, seeded before / after the repair step: {} ADFs (3-6 negation pairs, A(2), a class of R(6))", texts.len()),
+            texts.len() as u64,
+            || 0u64,
+            |st, k| {
+                *st += 3;
+                for (kind, msg) in rand_order_case(&texts[k as usize]) {
+                    run.violation(&kind, format!("{} on {}", msg.chars().take(600).collect::<String>(), texts[k as usize]), json!({"type": "rand_order", "text": texts[k as usize]}));
+                }
+            },
+            &|k| json!({"type": "rand_order", "text": texts[k as usize]}),
+        );
+        for st in res {
+            run.add_counts(0, st, st, st);
+        }
+    }
     // mid-size objects: ring ADFs with 6 and 7 statements and large sparse ADFs, sequences of length <= 2 (<= 1)
     {
         let mid: Vec<(Source, usize)> = if quick {
@@ -291,6 +372,9 @@ pub fn run_c11(run: &Run) {
 }
 
 pub fn replay(c: &Value) -> Vec<(String, String)> {
+    if c["type"] == "rand_order" {
+        return rand_order_case(c["text"].as_str().unwrap_or(""));
+    }
     if c["type"] == "call_seq_mid" {
         let seq: Vec<usize> = c["calls"].as_array().map(|a| a.iter().map(|x| x.as_u64().unwrap_or(0) as usize).collect()).unwrap_or_default();
         let n = c["labels"].as_array().map(|a| a.len()).unwrap_or(6);
